@@ -166,3 +166,72 @@ func (sc *scenario) verdict() (sig, detail string) {
 	}
 	return "", ""
 }
+
+// actions converts the scenario's wire-level trace into explorer actions (through
+// the same explorer's message table), so that a search can start from the
+// state the base schedule reaches.
+func (sc *scenario) actions() []dAction {
+	var as []dAction
+	for _, e := range sc.trace {
+		a := dAction{kind: "ev", node: e.Node}
+		switch e.Kind {
+		case "deliver":
+			a.ev = int32(sc.x.mt.intern(e.Proto, unhex(e.Bytes)))
+		case "timeout":
+			a.ev = evTimer
+		case "crash":
+			a.ev = evCrash
+		case "complete":
+			a.ev = evComplete - int32(e.K)
+		}
+		as = append(as, a)
+	}
+	return as
+}
+
+// scenarioLateCommit (base schedule B3): V3 Byzantine. Round 0: V1 proposes B1,
+// every correct validator sees the polka, locks B1@0 and precommits B1; V1
+// collects the precommits and FINALIZES B1, while V0 and V2 see B1, B1, nil,
+// time out and move on. Round 1: V2 (locked) re-proposes B1, no polka forms
+// (V3 withholds), both time out into round 2, whose proposer is Byzantine.
+// The state reached is the classic test of the locking rules: anything other
+// than B1 finalized by V0 or V2 from here is a safety violation.
+func scenarioLateCommit(x *explorer) *scenario {
+	sc := newScenario(x, 3, 0, 0)
+	pv := func(to, signer int, r int32, blk string) { sc.send(to, msgPred{"prevote", signer, r, blk}) }
+	pc := func(to, signer int, r int32, blk string) { sc.send(to, msgPred{"precommit", signer, r, blk}) }
+	sc.pump(1)
+	for _, to := range []int{0, 2} {
+		sc.send(to, msgPred{"proposal", 1, 0, "B1"})
+		sc.send(to, msgPred{"part", -2, 0, "B1"})
+	}
+	sc.send(1, msgPred{"part", -2, 0, "B1"})
+	for _, to := range []int{0, 1, 2} {
+		for _, s := range []int{0, 1, 2} {
+			pv(to, s, 0, "B1")
+		}
+	}
+	pc(1, 0, 0, "B1")
+	pc(1, 2, 0, "B1") // V1 finalizes B1
+	pc(0, 2, 0, "B1")
+	pc(0, 3, 0, "nil")
+	pc(2, 0, 0, "B1")
+	pc(2, 3, 0, "nil")
+	sc.timeout(0)
+	sc.timeout(2)
+	// round 1: V2 is proposer and locked -> re-proposes B1 with POL round 0
+	sc.send(0, msgPred{"proposal", 2, 1, "B1"})
+	sc.send(0, msgPred{"part", -2, 0, "B1"})
+	pv(0, 2, 1, "B1")
+	pv(2, 0, 1, "B1")
+	pv(0, 3, 1, "nil")
+	pv(2, 3, 1, "nil")
+	sc.timeout(0)
+	sc.timeout(2)
+	for _, to := range []int{0, 2} {
+		for _, s := range []int{0, 2, 3} {
+			pc(to, s, 1, "nil")
+		}
+	}
+	return sc
+}
